@@ -161,6 +161,7 @@ func lockedTypes(p *core.Program) []*lockedType {
 
 func c11(r *core.Run) {
 	p := r.P
+	c11OneSnapshot(r)
 	// a reader's snapshot sees a mutation all at once only if the mutation is ONE batch: the one-batch rule of C07
 	// (no direct write next to the batch, a single commit) is a necessary condition here too
 	defer func() {
@@ -605,4 +606,49 @@ func liveAccess(p *core.Program, f *ssa.Function, seen map[*ssa.Function]bool) s
 		})
 	}
 	return out
+}
+
+// c11OneSnapshot: a function that took a snapshot does all its scanning against THAT snapshot: none of the store
+// methods it calls (directly or one level down) takes a snapshot of its own — each further snapshot is another
+// committed state, and the results of one call mix several.
+func c11OneSnapshot(r *core.Run) {
+	p := r.P
+	takes := func(fn *ssa.Function) bool {
+		found := false
+		core.InstrsOf(fn, func(in ssa.Instruction) {
+			if c := core.CallOf(in); c != nil && strings.HasSuffix(core.CalleeName(c), ".DB).NewSnapshot") {
+				found = true
+			}
+		})
+		return found
+	}
+	n := 0
+	for _, fn := range p.FuncsIn(storeRel) {
+		if fn.Parent() != nil || !takes(fn) {
+			continue
+		}
+		n++
+		bad := ""
+		var badPos token.Pos
+		for _, nf := range core.Nest(fn) {
+			core.InstrsOf(nf, func(in ssa.Instruction) {
+				c := core.CallOf(in)
+				if c == nil {
+					return
+				}
+				g := core.StaticCallee(c)
+				if g == nil || !p.IsProdFunc(g) || g == fn || g.Parent() != nil {
+					return
+				}
+				if takes(g) && bad == "" {
+					bad, badPos = core.FuncName(g), in.Pos()
+				}
+			})
+		}
+		if bad == "" {
+			badPos = fn.Pos()
+		}
+		r.Check(bad == "", "C11.SNAP", core.FuncName(fn)+"#one-snapshot", badPos, "everything the function scans is read from the one snapshot it took", "the function took a snapshot but calls "+bad+", which takes another: the parts of one result are computed against different committed states (a batch scan mixes alerts of several versions of a signature)")
+	}
+	r.Floor("C11.SNAP", "functions that take a snapshot", n, 2)
 }
